@@ -251,6 +251,7 @@ func (ord *Order) Normalize(normalizers tax.Normalizers) {
 		// normalized, so that the result does not change on a second pass
 		applyCustomerRates(ord)
 	}
+	dropOwnCountryFromTaxes(ord)
 	tax.Normalize(normalizers, ord.Buyer)
 	tax.Normalize(normalizers, ord.Seller)
 	tax.Normalize(normalizers, ord.Preceding)
